@@ -104,7 +104,7 @@ def gen_case(rng):
             data[rng.choice([u'nosuch', u'A', u'a ', u'', u'x<&>'])] = rand_string(rng)
     return {'decls': decls, 'header': header, 'paras': paras,
             'picture': rng.randint(0, 999) if rng.random() < 0.6 else None,
-            'extra': rng.random() < 0.6, 'thumbnail': rng.random() < 0.3,
+            'extra': rng.random() < 0.6, 'extra_name': rng.randint(0, 5), 'thumbnail': rng.random() < 0.3,
             'container': not (n == 0 and rng.random() < 0.5),
             'data': sorted(data.items())}
 
@@ -113,7 +113,7 @@ def build(case):
     raw, members = ufgen.make_package(
         [[tuple(x) for x in a] for a in case['decls']] if (case['decls'] or case.get('container', True)) else None,
         [tuple(p) for p in case['paras']], [[tuple(x) for x in a] for a in case['header']],
-        case['picture'], (b'\x00\x01extra\xff' * 7) if case['extra'] else None, case['thumbnail'])
+        case['picture'], (b'\x00\x01extra\xff' * 7) if case['extra'] else None, case['thumbnail'], case.get('extra_name', 0))
     return raw, members
 
 
